@@ -36,7 +36,7 @@ def split_cases(draw, nums=("frac",)):
     nodes = draw(st.lists(st.sampled_from(pool), min_size=0, max_size=4))
     if nodes and draw(st.booleans()):
         nodes.append(nodes[0])
-    return {"curve": c, "mode": mode, "nodes": nodes,
+    return {"curve": c, "mode": mode, "nodes": nodes, "twin_first": draw(st.integers(0, 2)) == 0,
             "container": draw(st.sampled_from(["list", "tuple"]))}
 
 
@@ -50,6 +50,14 @@ def check_split(case, out):
     bk = oracle.breaks(ref.U)
     kind = ("rational" if ref.w is not None else "polynomial") + (";exact" if exact else ";float")
     out.cls("mode=" + case["mode"], kind, f"p={p}" if p < 2 else "p>=2")
+    if exact and case.get("twin_first") and case["mode"] != "outside":
+        out.cls("float-twin-first")
+        try:
+            tw = lib.build_curve(dict(c, num="float"))
+            tw.split() if case["mode"] == "none" else tw.split([float(z) for z in case["nodes"]])
+        except Exception as exc0:
+            if not lib.from_library(exc0):
+                raise
     snap = lib.snapshot(curve)
     if case["mode"] == "outside":
         bad = lib.conv_knot(bk[-1] + 1, num)
